@@ -195,6 +195,18 @@ FRAGS = [
                 (r"more\(flags\)", "more")],
          params=[("more", "bool")], bind={"more": "more"},
          doc="poll_entries, operation completion: non-final (push_multishot, keep in_flight) iff this holds, else final"),
+    # ---- C16: RecvStream::read_to_end: the range covered by the (unordered) chunks ----------------
+    Frag("rte_start_step", "compio-quic/src/recv_stream.rs", expr=r"^\s*start = (start\.min\(chunk\.offset\));",
+         params=[("m", "nat"), ("off", "nat")], bind={"start": "m", "chunk.offset": "off"}, num="nat",
+         doc="read_to_end: lowest offset seen so far, updated for every chunk"),
+    Frag("rte_end_step", "compio-quic/src/recv_stream.rs",
+         expr=r"^\s*end = (end\.max\(chunk\.offset \+ chunk\.bytes\.len\(\) as u64\));",
+         params=[("m", "nat"), ("off", "nat"), ("len0", "nat")],
+         bind={"end": "m", "chunk.offset": "off", "chunk.bytes.len()": "len0"}, num="nat",
+         doc="read_to_end: highest end seen so far, updated for every chunk"),
+    Frag("rte_place", "compio-quic/src/recv_stream.rs", expr=r"^\s*let offset = (\(offset - start\) as usize);",
+         params=[("off", "nat"), ("start", "nat")], bind={"offset": "off", "start": "start"}, num="nat", sub="trunc",
+         doc="read_to_end: where a chunk is copied to (start is the minimum of the offsets, so the subtraction is exact)"),
 ]
 
 # extra fragments are appended by the property builders below this line
